@@ -107,9 +107,6 @@ theorem modelOf_rel (P : MRep) (t : Stage K) (Z0 : K) (p : Port K) :
     (modelOf P t Z0).rel p ↔ arel P (conv t.rep P t.m Z0) (modelOf P t Z0).s1 (modelOf P t Z0).s2 p := by
   rw [Stage.rel, modelOf_rep, modelOf_m]
 
-def okModel (N P : MRep) (m : M2 K) (Z0 : K) : Prop :=
-  N = P ∨ (okc N .B m Z0 ∧ okc N P m Z0 ∧ okc .B P (conv N .B m Z0) Z0)
-
 theorem model_same (N : MRep) (m : M2 K) (s1 s2 Z0 : K) : modelOf N ⟨N, m, s1, s2⟩ Z0 = ⟨N, m, s1, s2⟩ := by
   cases N <;> rfl
 
